@@ -1,4 +1,5 @@
 import UnicLocale.Driver
+import UnicLocale.CldrCheck
 
 partial def loop (hin : IO.FS.Stream) (hout : IO.FS.Stream) : IO Unit := do
   let line ← hin.getLine
@@ -7,7 +8,11 @@ partial def loop (hin : IO.FS.Stream) (hout : IO.FS.Stream) : IO Unit := do
   hout.putStrLn (UL.Driver.answer l)
   loop hin hout
 
-def main : IO Unit := do
-  let hin ← IO.getStdin
-  let hout ← IO.getStdout
-  loop hin hout
+def main (args : List String) : IO UInt32 := do
+  match args with
+  | ["cldrcheck", root] => UL.CldrCheck.run root
+  | _ =>
+    let hin ← IO.getStdin
+    let hout ← IO.getStdout
+    loop hin hout
+    return 0
